@@ -32,6 +32,8 @@ type alPkg struct {
 	marshal    func(cmds []alCmd) ([]byte, error)
 	unmarshal  func(up bool, data []byte) ([]alCmd, error)
 	cmdSize    func(c alCmd) int
+	// unmarshalTwice decodes b1 and then b2 into the SAME Commands variable
+	unmarshalTwice func(up bool, b1, b2 []byte) ([]alCmd, error)
 }
 
 func nilIface(p alPayload) bool { return p == nil || reflect.ValueOf(p).IsNil() }
@@ -60,6 +62,16 @@ var alPkgs = map[string]*alPkg{
 		unmarshal: func(up bool, data []byte) ([]alCmd, error) {
 			var cs clocksync.Commands
 			err := cs.UnmarshalBinary(up, data)
+			var out []alCmd
+			for _, c := range cs {
+				out = append(out, alCmd{int(c.CID), c.Payload})
+			}
+			return out, err
+		},
+		unmarshalTwice: func(up bool, b1, b2 []byte) ([]alCmd, error) {
+			var cs clocksync.Commands
+			cs.UnmarshalBinary(up, b1)
+			err := cs.UnmarshalBinary(up, b2)
 			var out []alCmd
 			for _, c := range cs {
 				out = append(out, alCmd{int(c.CID), c.Payload})
@@ -103,6 +115,16 @@ var alPkgs = map[string]*alPkg{
 			}
 			return out, err
 		},
+		unmarshalTwice: func(up bool, b1, b2 []byte) ([]alCmd, error) {
+			var cs multicastsetup.Commands
+			cs.UnmarshalBinary(up, b1)
+			err := cs.UnmarshalBinary(up, b2)
+			var out []alCmd
+			for _, c := range cs {
+				out = append(out, alCmd{int(c.CID), c.Payload})
+			}
+			return out, err
+		},
 		cmdSize: func(c alCmd) int {
 			x := multicastsetup.Command{CID: multicastsetup.CID(c.cid)}
 			if !nilIface(c.p) {
@@ -140,6 +162,16 @@ var alPkgs = map[string]*alPkg{
 			}
 			return out, err
 		},
+		unmarshalTwice: func(up bool, b1, b2 []byte) ([]alCmd, error) {
+			var cs fragmentation.Commands
+			cs.UnmarshalBinary(up, b1)
+			err := cs.UnmarshalBinary(up, b2)
+			var out []alCmd
+			for _, c := range cs {
+				out = append(out, alCmd{int(c.CID), c.Payload})
+			}
+			return out, err
+		},
 		cmdSize: func(c alCmd) int {
 			x := fragmentation.Command{CID: fragmentation.CID(c.cid)}
 			if !nilIface(c.p) {
@@ -171,6 +203,16 @@ var alPkgs = map[string]*alPkg{
 		unmarshal: func(up bool, data []byte) ([]alCmd, error) {
 			var cs firmwaremanagement.Commands
 			err := cs.UnmarshalBinary(up, data)
+			var out []alCmd
+			for _, c := range cs {
+				out = append(out, alCmd{int(c.CID), c.Payload})
+			}
+			return out, err
+		},
+		unmarshalTwice: func(up bool, b1, b2 []byte) ([]alCmd, error) {
+			var cs firmwaremanagement.Commands
+			cs.UnmarshalBinary(up, b1)
+			err := cs.UnmarshalBinary(up, b2)
 			var out []alCmd
 			for _, c := range cs {
 				out = append(out, alCmd{int(c.CID), c.Payload})
